@@ -148,7 +148,8 @@ extern MPT_INTERFACE(metatype) *_mpt_iterator_factor(MPT_STRUCT(value) *val)
 			MPT_INTERFACE(iterator) *it = *((MPT_INTERFACE(iterator) * const *) val->_addr);
 			int cont = 0, ret;
 			
-			if ((ret = mpt_iterator_consume(it, 'u', &iter)) < 0) {
+			if ((ret = mpt_iterator_consume(it, 'u', &iter)) < 0
+			    || iter == UINT32_MAX) {
 				errno = EINVAL;
 				return 0;
 			}
@@ -183,7 +184,9 @@ extern MPT_INTERFACE(metatype) *_mpt_iterator_factor(MPT_STRUCT(value) *val)
 				errno = EINVAL;
 				return 0;
 			}
-			if ((c = mpt_cuint32(&iter, str + 1, 0, 0)) < 0) {
+			/* element count must fit after adding initial value */
+			if ((c = mpt_cuint32(&iter, str + 1, 0, 0)) < 0
+			    || (c && iter == UINT32_MAX)) {
 				errno = EINVAL;
 				return 0;
 			}
